@@ -288,6 +288,56 @@ def rule_h(R, ctx, rid="C08.h"):
              cs.loc())
 
 
+def rule_i(R, ctx, rid="C08.i"):
+    Y = ctx.yrs
+    R.rule(rid, "R-GUARD document-free questions about an update: Update::extends answers true exactly behind `block.clock <= sv[client]`, "
+                "`block.clock + block.len > sv[client]` and `!is_skip()` of the same block; state_vector_lower raises the client's entry "
+                "with the clock of its first block that is not a Skip (set_max under `!is_skip()`, the id's own clock); insertions "
+                "records an Item under `include_deleted || !is_deleted()` with (id, len) of that item and a GC range only under "
+                "include_deleted with (range.id(), range.len)")
+    fn = Y.fn("yrs::update::Update::extends")
+    v = FnView(fn)
+    trues = [i for i, j, st in fn.stmts() if st["dst"] == 0 and isinstance(st["rv"].get("use"), dict) and st["rv"]["use"].get("k") == 1]
+    R.floor(rid, "`return true` of Update::extends", len(trues), 1)
+    for k, bb in enumerate(trues):
+        g = v.guards(bb)
+        le = any(isinstance(l.term, tuple) and l.term[0] == "bin" and l.term[1] == "Le" and l.polarity is True and
+                 term_has_call(l.term[3], "yrs::state_vector::StateVector::get") and term_has_field(l.term[2], "BlockRange.clock") for l in g)
+        gt = any(isinstance(l.term, tuple) and l.term[0] == "bin" and l.term[1] == "Gt" and l.polarity is True and
+                 term_has_call(l.term[3], "yrs::state_vector::StateVector::get") and term_has_field(l.term[2], "BlockRange.len")
+                 and term_has_field(l.term[2], "BlockRange.clock") for l in g)
+        ns = any(lit_call(l, "yrs::block::Block::is_skip", False) for l in g)
+        R.ob(rid, fn, "extends#%d" % k, le and gt and ns, "true under clock <= sv, clock + len > sv, !is_skip: %s %s %s" % (le, gt, ns))
+    fn = Y.fn("yrs::update::Update::state_vector_lower")
+    v = FnView(fn)
+    sm = fn.calls_to("yrs::state_vector::StateVector::set_max")
+    R.floor(rid, "set_max in state_vector_lower", len(sm), 1)
+    for cs, site in ordinal_sites(sm):
+        ok = v.has_guard(cs.bb, lambda l: lit_call(l, "yrs::block::Block::is_skip", False)) and \
+            term_has_call(v.arg(cs, 2, 10), "yrs::block::Block::id") and term_has_field(v.arg(cs, 2, 10), "ID.clock")
+        R.ob(rid, fn, site, ok, "set_max(client, first non-Skip block's id.clock): %s" % ok, cs.loc())
+    fn = Y.fn("yrs::update::Update::insertions")
+    v = FnView(fn)
+    ins = fn.calls_to("yrs::id_set::IdSet::insert")
+    R.floor(rid, "IdSet::insert in insertions", len(ins), 2)
+    for cs, site in ordinal_sites(ins):
+        kinds, used = kinds_reaching(Y, fn, cs.bb, enum="yrs::block::Block", place_hint=None, names=["Item", "GC", "Skip"])
+        a1, a2 = simp_deep(v.arg(cs, 1, 10)), simp_deep(v.arg(cs, 2, 10))
+        if kinds == {"GC"}:
+            ok = v.has_guard(cs.bb, lambda l: isinstance(l.term, tuple) and l.term[0] == "param" and fn.local_name(l.term[1]) == "include_deleted" and l.polarity is True) \
+                and term_has_call(a1, "yrs::block::BlockRange::id") and field_path(a2)[-1:] == ["len"]
+            R.ob(rid, fn, site + ":GC", ok, "GC range recorded under include_deleted with (range.id(), range.len): %s" % ok, cs.loc())
+        elif kinds == {"Item"}:
+            ok = field_path(a1)[-1:] == ["id"] and field_path(a2)[-1:] == ["len"] and root_name(a1) == root_name(a2)
+            R.ob(rid, fn, site + ":Item", ok, "item recorded with its own (id, len): %s" % ok, cs.loc())
+        else:
+            R.ob(rid, fn, site, False, "an insertion is recorded for block kinds %s" % sorted(kinds), cs.loc())
+    dels = fn.calls_to("yrs::block::Item::is_deleted")
+    R.ob(rid, fn, "deleted-filter", len(dels) == 1 and FnView(fn).has_guard(dels[0].bb, lambda l: isinstance(l.term, tuple) and l.term[0] == "param"
+                                                                               and fn.local_name(l.term[1]) == "include_deleted" and l.polarity is False),
+         "is_deleted() is consulted exactly where include_deleted is false")
+
+
 def check(ctx, R):
     from . import wire_rules
     R.run("C08.a", rule_a, ctx)
@@ -301,4 +351,5 @@ def check(ctx, R):
     R.run("C08.f", lambda R, c: c06.rule_g(R, c, "C08.f", only=("yrs::update::Update::encode_diff",)), ctx)
     R.run("C08.g", lambda R, c: c06.rule_h(R, c, "C08.g"), ctx)
     R.run("C08.h", rule_h, ctx)
+    R.run("C08.i", rule_i, ctx)
     return {}
